@@ -47,7 +47,9 @@ func processAccessClients(
 		var ip netip.Addr
 		var ipnet netip.Prefix
 		if ip, err = netip.ParseAddr(s); err == nil {
-			ips.Add(ip)
+			// Client addresses are compared in their unmapped form, see
+			// [accessManager.isBlockedIP].
+			ips.Add(ip.Unmap())
 		} else if ipnet, err = netip.ParsePrefix(s); err == nil {
 			*nets = append(*nets, ipnet)
 		} else {
@@ -56,7 +58,8 @@ func processAccessClients(
 				return fmt.Errorf("value %q at index %d: bad ip, cidr, or clientid", s, i)
 			}
 
-			clientIDs.Add(s)
+			// The ClientIDs of the requests are always in lower case.
+			clientIDs.Add(strings.ToLower(s))
 		}
 	}
 
@@ -151,15 +154,24 @@ func (a *accessManager) isBlockedIP(ip netip.Addr) (blocked bool, rule string) {
 		ipnets = a.allowedNets
 	}
 
+	// An IPv4-mapped IPv6 address, which is how a dual-stack reverse proxy may
+	// report a client, is the IPv4 address of that client.
+	ip = ip.Unmap()
+
+	// A link-local address comes with the zone of the interface the request
+	// has been received on, while the entries are usually written without one.
+	ipWithoutZone := ip.WithZone("")
 	if ips.Has(ip) {
 		return blocked, ip.String()
+	} else if ips.Has(ipWithoutZone) {
+		return blocked, ipWithoutZone.String()
 	}
 
 	for _, ipnet := range ipnets {
 		// Remove zone before checking because prefixes stip zones.
 		//
 		// TODO(d.kolyshev):  Cover with tests.
-		if ipnet.Contains(ip.WithZone("")) {
+		if ipnet.Contains(ipWithoutZone) {
 			return blocked, ipnet.String()
 		}
 	}
